@@ -147,6 +147,6 @@ let () =
   let ic = open_in Sys.argv.(1) in
   List.iter (fun line ->
     match split_ws line with
-    | id :: "P" :: r -> run_path id r
+    | id :: ("P" | "Q") :: r -> run_path id r
     | id :: k :: r when k = "G" || k = "R" || k = "J" -> run_store k.[0] id r
     | _ -> ()) (read_lines ic)
